@@ -1,7 +1,7 @@
 """Boundary recorder for ModeDReader / DataReadout."""
 from __future__ import annotations
 
-from vf.mon import clock, containers
+from vf.mon import clock, containers, steps
 
 
 POISON = object()  # appended by the monitor to every list that read() returned
@@ -68,12 +68,15 @@ def run(chunks, reader=None, states: set | None = None):
                 pass  # not the object under observation
             containers.used["calls_interleaved_with_another_reader_object"] = containers.used.get("calls_interleaved_with_another_reader_object", 0) + 1
         lent, release = containers.lend(ch, usable)
+        armed = steps.arm(steps.read_budget(len(ch)))
         try:
             msgs = reader.read(lent)
-        except Exception as ex:
+        except (Exception, steps.CpuBudgetExceeded) as ex:
             err = (ex, i)
             break
         finally:
+            if armed:
+                steps.disarm()
             release()  # the caller's buffer is reused as soon as read() has returned
         poisoned = False
         for m in msgs:
